@@ -1,3 +1,4 @@
+import os
 import pathlib
 import re
 import shutil
@@ -75,9 +76,9 @@ def main(args):
 
         if args.dry_run:
             for exp_path in to_delete:
-                print("Would delete", str(exp_path.relative_to(cwd)))
+                print("Would delete", os.path.relpath(exp_path, cwd))
         else:
             for exp_path in to_delete:
                 if args.verbose:
-                    print("Deleting", str(exp_path.relative_to(cwd)))
+                    print("Deleting", os.path.relpath(exp_path, cwd))
                 shutil.rmtree(exp_path, ignore_errors=True)
